@@ -62,18 +62,23 @@ def decode_impl(data, w, bytealign, blackis1, columns_explicit=True):
     return ccittfaxdecode(data, params)
 
 
-def judge(st, rows, line_bits, labels, w, via_stream=False):
-    """decode one encoding under the 8 (align, polarity, eofb) configurations"""
+def judge(st, rows, line_bits, labels, w, via_stream=False, light=False):
+    """decode one encoding under the 8 (align, polarity, eofb) configurations
+    (light: 2 of them - used for the every-run-length family, which is about code tables)"""
     h = len(rows)
     mask = t6.row_mask(w, h)
     nontriv = any(any(r) for r in rows)
     for bytealign in (False, True):
         for eofb in (True, False):
+            if light and (eofb != (not bytealign)):
+                continue
             data = t6.assemble(line_bits, bytealign, eofb)
             # reference decoder validates the encoder (harness self-check)
             if t6.ref_decode(data, w, h, bytealign) != [list(r) for r in rows]:
                 raise RuntimeError(f"reference encoder/decoder disagree: {rows} {labels}")
             for blackis1 in (False, True):
+                if light and blackis1 != bytealign:
+                    continue
                 exp = t6.packed_rows(rows, blackis1)
                 case = {"rows": [list(r) for r in rows], "w": w, "labels": labels, "data": data,
                         "bytealign": bytealign, "blackis1": blackis1, "eofb": eofb, "via_stream": False}
@@ -240,7 +245,7 @@ def run_shard(shard, tier, st):
                 p = next(t6.line_paths((0,) * len(r), r, "h"))
                 st.states += len(p[0]) + 1
                 st.transitions += len(p[0])
-                judge(st, [r], [p[1]], [p[0]], len(r))
+                judge(st, [r], [p[1]], [p[0]], len(r), light=True)
     else:
         # ISO 32000-1 Table 11: Columns defaults to 1728
         r = wide_row((100, 28, 1600))
